@@ -288,6 +288,33 @@ def run(ctx):
     for case, m, level in hangs:
         p = bool(predicted.get(m) or (m in extra and predicted.get(extra[m])))
         res.violate("mutation-sweep", case, "a result or an exception within the budget", "no return", "processing did not finish within the time budget", {"kind": "hang", "x690_loop_predicted": p})
+    # a peer that answers EVERY request with the same report (the datagram an attacker can replay):
+    # each operation must give up after a bounded number of datagrams, and the client stays usable
+    for level in ("noauth", "auth", "authpriv"):
+        for stuck in ("notInTimeWindow", "unknownEngineID"):
+            agent = RA.Agent(db=[(tuple(OID), ["str", "6f6b"])], v3=RA.V3Config(), budget=40)
+            client = W.make_client(agent, "v3", level)
+            state = {"on": True}
+
+            def hook(a, msg, out, stuck=stuck, state=state):
+                if state["on"] and msg.get("engine_id") != b"":  # discovery is answered normally
+                    u = a.v3.users.get(msg["user"]) or {}
+                    return a._report({**msg, "flags": msg["flags"] | 4}, stuck, user=msg["user"], auth_user=msg["user"] if u.get("auth") else None)
+                return None
+
+            agent.hook_v3 = hook
+            r = BL.guarded(lambda: W.run(client.get(RA.OID(OID))), 5.0)
+            n = len(agent.raw_log)
+            res.evaluations += 1
+            res.count(f"report-storm:{stuck}")
+            case = {"entry": "report-storm", "level": level, "report": stuck, "datagrams": n}
+            if r[0] != "error" or r[1] in ("AgentStop", "RecursionError") or n > 8:
+                res.violate("report-storm", case, "an exception after at most 8 datagrams", [list(r)[:2], n], "a peer repeating one report keeps the client sending", {"kind": "report-storm", "report": stuck})
+                continue
+            state["on"] = False
+            r2 = BL.guarded(lambda: W.run(client.get(RA.OID(OID))), 5.0)
+            if r2[0] != "ok":
+                res.violate("report-storm", case, "the next request on the same client succeeds", list(r2)[:2], "the client is unusable after the storm", {"kind": "unusable-after", "entry": "report-storm"})
     # cost of one long sub-identifier: linear?
     for n in ((2000, 8000) if ctx.quick else (2000, 8000, 16000, 60000)):
         dg = long_subid(n)
